@@ -373,8 +373,10 @@ def circuit_layer(scan, max_width, gateset="all", symbolic=False):
                 st.integers(0, 1), min_size=n, max_size=n))}, off
         if kind == "measure":
             off = draw(st.sampled_from(qs))
-            n = 2 if off in adj_q and gateset != "tk" and draw(
-                st.integers(0, 3)) == 0 else 1
+            n = 1
+            while off + n - 1 in adj_q and n < 3 and draw(
+                    st.integers(0, 3)) == 0:
+                n += 1
             destructive = draw(st.booleans()) or room < n
             after = scan[off + n:off + 2 * n]
             override = len(after) == n and all(w[0] == "bit" for w in after)\
